@@ -58,8 +58,16 @@ func mkEp(i int, w int32, wt int32) endpoint.Endpoint {
 // ---- history for porcupine ----
 
 type opIn struct {
-	kind string // select | add | remove | refresh
-	eps  []endpoint.Endpoint
+	kind    string // select | add | remove | refresh
+	eps     []endpoint.Endpoint
+	variant *endpoint.Endpoint // remove: what is actually passed (same host, newer descriptor)
+}
+
+func (in opIn) arg() endpoint.Endpoint {
+	if in.variant != nil {
+		return *in.variant
+	}
+	return in.eps[0]
 }
 type opOut struct {
 	host string
@@ -192,9 +200,14 @@ func (s *C13) do(c *scen.Ctx, client int, sel selector.Selector, in opIn, m msg)
 		case "add":
 			out.err = sel.Add(in.eps[0]) != nil
 		case "remove":
-			out.err = sel.Remove(in.eps[0]) != nil
+			out.err = sel.Remove(in.arg()) != nil
 		case "refresh":
-			sel.Refresh(in.eps)
+			// the caller owns the slice it passes: it recycles the buffer right afterwards
+			buf := append(make([]endpoint.Endpoint, 0, len(in.eps)+2), in.eps...)
+			sel.Refresh(buf)
+			for i := range buf {
+				buf[i] = endpoint.Endpoint{Host: "recycled-by-caller", Port: 1, Weight: 1000, WeightType: buf[i].WeightType, Key: "recycled"}
+			}
 		}
 	}()
 	s.mu.Lock()
@@ -279,7 +292,24 @@ func (s *C13) Run(c *scen.Ctx) {
 				case 0:
 					s.do(c, 10+i, sel, opIn{kind: "refresh", eps: pick()}, msg{})
 				case 1, 2:
-					s.do(c, 10+i, sel, opIn{kind: "remove", eps: []endpoint.Endpoint{s.universe[simrt.Draw(nU, "c13.which")]}}, msg{})
+					in := opIn{kind: "remove", eps: []endpoint.Endpoint{s.universe[simrt.Draw(nU, "c13.which")]}}
+					if simrt.Draw(3, "c13.newer") == 2 {
+						// endpoints are identified by host: the registry may have changed the rest of the
+						// descriptor since the endpoint was added
+						v := in.eps[0]
+						switch k := simrt.Draw(3, "c13.newerwhat"); {
+						case k == 0:
+							v.Port, v.Timeout = v.Port+1, v.Timeout+500
+						case k == 1 || s.weighted:
+							v.Qos, v.SetId, v.Grid = 3, "a.b.c", 2
+						default:
+							v.Weight += 50
+						}
+						v.Key = v.String()
+						in.variant = &v
+						c.Count("probe.remove_with_newer_descriptor", 1)
+					}
+					s.do(c, 10+i, sel, in, msg{})
 				default:
 					s.do(c, 10+i, sel, opIn{kind: "add", eps: []endpoint.Endpoint{s.universe[simrt.Draw(nU, "c13.which")]}}, msg{})
 				}
@@ -316,7 +346,11 @@ func (s *C13) sequential(c *scen.Ctx) {
 	rr := roundrobin.New(s.weighted)
 	switch simrt.Draw(3, "c13.seqhist") { // reach the set through different histories
 	case 0:
-		rr.Refresh(set)
+		buf := append([]endpoint.Endpoint(nil), set...)
+		rr.Refresh(buf)
+		for i := range buf {
+			buf[i] = endpoint.Endpoint{Host: "recycled-by-caller", Weight: 1000, WeightType: buf[i].WeightType}
+		}
 	case 1:
 		for _, e := range set {
 			rr.Add(e)
